@@ -24,6 +24,14 @@ Proof. exact worker_in_order. Qed.
 Theorem C07_scripts_loaded : forall c i e es, we_aux e = true -> In (i, -1) (expected c ((i, e) :: es)).
 Proof. exact script_always_delivered. Qed.
 
+(* ... and every interleaving of their traffic: applying the same writes in ANY order leaves every
+   key with the same value, as long as no two writes name the same (database, key) - which holds
+   for the records of an RDB file (each key once per database; split hashes excepted, finding F9b) *)
+Theorem C07_interleaving_irrelevant : forall (K V : Type) (keqb : K -> K -> bool),
+  (forall a b, keqb a b = true <-> a = b) ->
+  forall ws ws' : list (K * V), Permutation ws ws' -> NoDup (map fst ws) -> forall k, holds K V keqb ws k = holds K V keqb ws' k.
+Proof. exact holds_perm. Qed.
+
 Example C07_nonvacuous :
   let c := {| w_f := {| key_black := [[x62]]; key_white := []; db_black := []; db_white := []; slot_list := []; filter_lua := false |};
               w_tdb := -1; w_full := true |} in
@@ -34,3 +42,4 @@ Proof. split; vm_compute; reflexivity. Qed.
 
 Print Assumptions C07_exactly_once_right_db.
 Print Assumptions C07_worker_in_order.
+Print Assumptions C07_interleaving_irrelevant.
